@@ -33,6 +33,7 @@ type Input struct {
 	Stream string `json:"stream"` // sync | hold | writeback
 	Keys   int    `json:"keys"`
 	Long   bool   `json:"long_keys,omitempty"` // keys of 130+ bytes
+	Family int    `json:"family,omitempty"`    // key names form a chain of proper string prefixes: 1 = key 0 is the shortest, 2 = key 0 is the longest
 	Ops    []Op   `json:"ops"`
 }
 
@@ -119,15 +120,34 @@ func decodeVal(b []byte) (int, error) {
 	return strconv.Atoi(string(b))
 }
 
-var longKeys bool // set per case
+// set per case
+var (
+	longKeys  bool
+	keyFamily int
+	keyCount  int
+)
 
+// keyName: "k<i>" normally.  In a key family every name is a proper string prefix of the next longer one
+// ("k", "k0", "k00", ...), as tree keys with times of different length or label values extending each other are.
 func keyName(i int) string {
-	if longKeys {
+	switch {
+	case longKeys:
 		return "k" + strconv.Itoa(i) + strings.Repeat("_", 130)
+	case keyFamily == 1:
+		return "k" + strings.Repeat("0", i)
+	case keyFamily == 2:
+		return "k" + strings.Repeat("0", keyCount-1-i)
 	}
 	return "k" + strconv.Itoa(i)
 }
 func keyIdx(k string) int {
+	switch {
+	case longKeys:
+	case keyFamily == 1:
+		return len(k) - 1
+	case keyFamily == 2:
+		return keyCount - len(k)
+	}
 	i, _ := strconv.Atoi(strings.TrimRight(strings.TrimPrefix(k, "k"), "_"))
 	return i
 }
@@ -229,6 +249,14 @@ func run(in Input) (res lib.Result) {
 	}
 	caseSeq++
 	longKeys = in.Long
+	keyFamily = in.Family
+	keyCount = in.Keys
+	if keyCount < 1 {
+		keyCount = 1
+	}
+	if in.Long || in.Keys > 8 {
+		keyFamily = 0
+	}
 	r := &rig{prefix: fmt.Sprintf("c%d:", caseSeq), entered: make(chan int, 1)}
 	r.newCache()
 	nkeys := in.Keys
@@ -436,7 +464,7 @@ func run(in Input) (res lib.Result) {
 	}
 	res.Coq = "{| c_keys := " + lib.List(keys) + "; c_hist := " + lib.List(hist) + " |}"
 	res.NonTrivial = nontrivial(in)
-	feat := map[string]interface{}{"stream": in.Stream, "len": len(in.Ops), "keys": nkeys, "forced_overlaps": overlaps}
+	feat := map[string]interface{}{"family": keyFamily, "stream": in.Stream, "len": len(in.Ops), "keys": nkeys, "forced_overlaps": overlaps}
 	for _, kname := range []string{"put", "read", "mutate", "poke", "delete", "evict", "evicthold", "writeback", "flush"} {
 		feat["n_"+kname] = counts[kname]
 	}
@@ -543,6 +571,9 @@ func gen(r *rand.Rand, idx int, tier string) Input {
 		return genMany(r)
 	}
 	in := Input{Keys: lib.Range(r, 2, 3)}
+	if lib.Chance(r, 0.4) {
+		in.Family = lib.Range(r, 1, 2)
+	}
 	switch {
 	case idx%5 == 3:
 		in.Stream = "hold"
@@ -656,7 +687,7 @@ func enum(tier string) []Input {
 				}
 			}
 			if interesting || len(prefix) <= 3 {
-				in := Input{Stream: "enum", Keys: 2}
+				in := Input{Stream: "enum", Keys: 2, Family: 2}
 				for i, s := range prefix {
 					in.Ops = append(in.Ops, Op{Op: s.op, Key: s.key, Val: enumVal(i), Num: s.num, Den: s.den})
 				}
@@ -688,7 +719,7 @@ func enum(tier string) []Input {
 			}
 		}
 		if hasWB {
-			in := Input{Stream: "enum-writeback", Keys: 2}
+			in := Input{Stream: "enum-writeback", Keys: 2, Family: 2}
 			for i, s := range prefix {
 				in.Ops = append(in.Ops, Op{Op: s.op, Key: s.key, Val: enumVal(i), Num: s.num, Den: s.den})
 			}
